@@ -335,6 +335,8 @@ def canon_res(r):
 
 
 def model_canon(c, wire):
+    """what is compared: refusal / crash, and what the written text loads back to.  The written lines themselves are not
+    part of the property (a different but equally readable nickname is a harmless rewrite): see model_spec"""
     if c.get('_skip'):
         return ('same',)
     v = common.parse_sx(wire)
@@ -342,19 +344,33 @@ def model_canon(c, wire):
         return ('refused',)
     if v[0] != 0:
         return ('crash', v[1])
-    return ('written', _t(v[1][0]), canon_res(v[1][1]))
+    return ('written', canon_res(v[1][1]))
+
+
+LINES_DIFFER = [0]
 
 
 def model_spec(c, io, mo):
-    """the declarative clause on the implementation, for the elections the theorem is about (wf = true in the model)"""
+    """(a) the declarative clause on the implementation, for the elections the theorem is about (wf = true in the model);
+    (b) when the written lines differ from the model's: both texts must be read alike by both readers"""
     if c.get('_skip'):
         c['_unmodelled'] = True
         return None
     m = common.parse_sx(mo)
     v = common.parse_sx(io)
-    if m[0] != 0:
+    if m[0] != 0 or v[0] != 0:
         return None
-    _lines, mres, expected, wf = m[1]
+    mlines, mres, expected, wf = m[1]
+    if _t(mlines) != _t(v[1][0]):
+        LINES_DIFFER[0] += 1
+        mtext = ''.join(''.join(chr(x) for x in l) + '\n' for l in mlines)
+        r1, _ = impl_loads(mtext)
+        if canon_res(common.parse_sx(r1)) != canon_res(mres):
+            return 'the text written by the model is read differently by stv.loads and by the model reader'
+        c2 = dict(text=c['_text'])
+        r2 = common.run_model([lines_model_line(c2)])[0]
+        if not c2.get('_skip') and canon_res(common.parse_sx(r2)) != canon_res(v[1][1]):
+            return 'the text written by stv.dumps is read differently by stv.loads and by the model reader'
     if not wf:
         return None
     if not expected:
@@ -362,8 +378,6 @@ def model_spec(c, io, mo):
     want = ('ok', canon_loaded(expected[0]))
     if canon_res(mres) != want:
         return 'MODEL violates its own round-trip theorem (C19_stv_roundtrip) on a well-formed election'
-    if v[0] != 0:
-        return 'stv.dumps raises on a well-formed election: %s' % c.get('_exc')
     if canon_res(v[1][1]) != want:
         return 'STV text does not load back unchanged (well-formed election): %s' % (c.get('_loadexc') or 'data differ')
     return None
@@ -434,7 +448,8 @@ def structured_text(rng):
     nicks = rng.sample(['a', 'b', 'c', 'dd', 'e_1', '7', '\u00e9', 'end', 'x', 'ax', '-'], rng.randint(1, 4))
     head = [pick(['method=BC'] * 14 + ['method=GPCA2000', 'method=GPCA2000', 'method=blt', 'method=blt', 'method=bc', 'method= BC'])]
     r = rng.random()
-    qs = ['quota=droop', 'quota=hare', 'quota=25', 'quota=\u0663', 'quota=imperiali', 'quota=hare_rounded', 'quota=droop', 'quota=hare']
+    qs = ['quota=droop', 'quota=hare', 'quota=25', 'quota=\u0663', 'quota=imperiali', 'quota=hare_rounded', 'quota=droop', 'quota=hare',
+          'quota=\u00b2', 'quota=1\u00b3']
     if r < 0.55:
         head.append(pick(qs))
     elif r < 0.8:
@@ -444,7 +459,7 @@ def structured_text(rng):
     if rng.random() < 0.4:
         head.append(pick(['seats=2', 'seats= 3', 'seats=-1', 'seats=+4', 'seats=1_0', 'seats=\u0662', 'seats=', 'seats=two', 'seats=0']))
     if rng.random() < 0.3:
-        head.append(pick(['random=non', 'random=42', 'random=\u0664\u0662', 'random=', 'random=no', 'random=-1', 'random=1_0']))
+        head.append(pick(['random=non', 'random=42', 'random=\u0664\u0662', 'random=', 'random=no', 'random=-1', 'random=1_0', 'random=\u2460', 'random=7\u00b2']))
     if rng.random() < 0.4:
         head.append(pick(['title=Some title', 'title=', 'title=a=b', 'title=None', 'title= padded ']))
     rng.shuffle(head)
@@ -471,7 +486,9 @@ def structured_text(rng):
                 used = sorted(int(x) for x in items if x != '-')
                 items = [str(used.index(int(x)) + 1) if x != '-' else '-' for x in items]
             if rng.random() < 0.1:
-                items.append(pick(['1', '-', 'x', '\u0661']))
+                items.append(pick(['1', '-', 'x', '\u0661', '\u00b2']))
+            if rng.random() < 0.05 and items:
+                items[rng.randrange(len(items))] = pick(['\u00b2', '\u2461', '\u0661'])
         else:
             items = [pick(nicks) for _ in range(rng.randint(0, 3))]
             if rng.random() < 0.07:
@@ -481,7 +498,7 @@ def structured_text(rng):
     n = len(body)
     if rng.random() < 0.12:
         body.insert(rng.randrange(len(body) + 1), '')
-    count = pick([str(n)] * 8 + [str(n + 1), '0%d' % n, ''.join(chr(0x660 + int(d)) for d in str(n)), ' %d' % n])
+    count = pick([str(n)] * 8 + [str(n + 1), '0%d' % n, ''.join(chr(0x660 + int(d)) for d in str(n)), ' %d' % n, '\u00b2', '%d\u00b9' % n])
     tail = [pick(['end', 'end', 'end', ' end', 'end ', 'END', 'end # x'])] if rng.random() < 0.93 else []
     extra = [pick(['', 'junk', 'end', 'a b'])] if rng.random() < 0.3 else []
     return '\n'.join([deco(l) for l in head] + [deco('ballots=' + count)] + body + tail + extra)
